@@ -279,6 +279,13 @@ fn stepper_spec(id: &'static str, rule: &'static str, cases: (u64, u64), mut ext
     large.geoms = gen::GEOMS_LARGE;
     large.max_ops = 20;
     subs.push(gen_sub("gen-large-screens", hist(large), run.clone(), (cases.0 / 8, cases.1 / 8), 520));
+    // ... on screens just beyond the parameter cap of 9999 in one dimension ...
+    let mut huge = profile_for(id);
+    huge.geoms = gen::GEOMS_HUGE;
+    huge.max_ops = 6;
+    huge.fill = 40;
+    huge.deccolm = false;
+    subs.push(gen_sub("gen-huge-screens", hist(huge), run.clone(), (160, 6_000), 200));
     // ... and in long histories on small screens
     let mut long = profile_for(id);
     long.geoms = GEOMS_SMALL;
